@@ -20,6 +20,7 @@ import FFVerif.Model.Spectral
 import FFVerif.Model.Miner
 import FFVerif.Model.Form
 import FFVerif.Model.Chol
+import FFVerif.Model.Gram
 import FFVerif.Props.C19
 import FFVerif.Props.C20
 import FFVerif.Gen.DiffTables
@@ -116,6 +117,14 @@ def handle (toks : List String) : Option String :=
     match Form.hlrf T g dg (tol.getD 0 0) iter with
     | some (beta, u, x) => some s!"ok {showFloats (beta :: vecList n u)} {showFloats (vecList n x)} {showIterates T tr}"
     | none => some s!"noconv - - {showIterates T tr}"
+  | ["gram", n, cols, al] => do
+    -- cols: the matrix column by column (n*n floats); al: the alignment vector or `-`
+    let n ← n.toNat?
+    let c ← parseFloatCsv cols
+    let a ← parseFloatCsv al
+    let colList : List (Nat → Float) := (List.range n).map (fun j => fun i => c.getD (j * n + i) 0)
+    let B := Gram.orth n colList (if a.isEmpty then none else some (vecOf a 0))
+    some (showFloats (B.flatMap (fun col => vecList n col)))
   | ["fosm", n, mus, sigmas, c0, b, Q] => do
     let n ← n.toNat?
     let mus ← parseFloatCsv mus
